@@ -1,6 +1,7 @@
 import RV.Driver.C01
 import RV.Driver.C03
 import RV.Driver.C10
+import RV.Driver.C12
 open RV.Driver
 
 def dispatch (prop op : String) (args : List String) (impl : String) : Verdict :=
@@ -11,6 +12,8 @@ def dispatch (prop op : String) (args : List String) (impl : String) : Verdict :
   | "C04" => c04 op args impl
   | "C11" => c11 op args impl
   | "C10" => c10 op args impl
+  | "C12" => c12 op args impl
+  | "C14" => c14 op args impl
   | _ => bad s!"prop:{prop}"
 
 /-- a line is `id \t prop \t op \t arg… \t => \t impl` -/
